@@ -206,6 +206,13 @@ theorem real_density_liquid_doc (b : BranchRow ℝ) (nf nt : NodeRow ℝ) (Rho :
   simp only [realDensityLiquid]
   kunfold
 
+/-- non-vacuity of the hypotheses of `gas_normfactors_reverse` (flag toggled: 0 ↔ 1) and `gas_mean_pressure_doc`
+    (end pressures 6.01325 and 5.01325 bar are not numerically equal) -/
+example : ((1:ℝ) ≠ 0 ↔ (0:ℝ) = 0) ∧ ((0:ℝ) ≠ 0 ↔ ¬ (1:ℝ) = 0 → False) ∧
+    ¬ |(1.01325:ℝ) + 5 - (1.01325 + 4)| ≤ 1e-8 + 1e-5 * |(1.01325:ℝ) + 4| := by
+  refine ⟨by norm_num, by norm_num, ?_⟩
+  norm_num [abs_of_pos]
+
 /-- non-vacuity of the hypotheses of `incomp_matches_doc` / `comp_matches_doc` -/
 example : ∃ (rho A D : ℝ), 0 < rho ∧ 0 < A ∧ D ≠ 0 := ⟨998, 0.00785, 0.1, by norm_num, by norm_num, by norm_num⟩
 
